@@ -21,10 +21,13 @@ RULE = ("cells = model {single output n=4, batch (2,) n=3, Kronecker multitask (
         "per-batch-element patterns) x policy order {mask, fill, mask->fill, fill->mask, mask->train->eval->fill} x settings {default, "
         "fast_pred_var, eager kernels}; plus MLL under mask and Gaussian expected_log_prob / log_marginal under both policies; "
         "distinct/non-trivial = distinct (model, pattern) with at least one NaN and one observed value")
-ASSUMPTIONS = ["deletion oracle computed densely from one eager kernel/mean/likelihood evaluation on the observed subset",
+ASSUMPTIONS = ["'fill' under CG (max_cholesky_size 0) is compared at 5e-3: linear_cg's residual floor times the -999 fill value",
+               "deletion oracle computed densely from one eager kernel/mean/likelihood evaluation on the observed subset",
                "fill on the multitask model / MLL is documented as unsupported: a refusal is accepted, a wrong value is not"]
 
-CTX = {"default": lambda: [], "fpv": lambda: [S.fast_pred_var()], "nolazy": lambda: [S.lazily_evaluate_kernels(False)]}
+CTX = {"default": lambda: [], "fpv": lambda: [S.fast_pred_var()], "nolazy": lambda: [S.lazily_evaluate_kernels(False)],
+       "cg": lambda: [S.max_cholesky_size(0), S.eval_cg_tolerance(1e-12), S.max_cg_iterations(400)],
+       "eager0": lambda: [S.max_eager_kernel_size(0)]}
 import itertools as _it
 
 # every sequence over {mask, fill} up to length 3 (a cache filled under one policy is reused or must be rebuilt under the next),
@@ -40,6 +43,10 @@ def cells(tier, seed):
             continue
         for ctx in CTX:
             out.append({"kind": "single", "pattern": list(bits), "ctx": ctx})
+        for ctx in ("default", "fpv"):
+            out.append({"kind": "fixed", "pattern": list(bits), "ctx": ctx})
+            if tier == "thorough":
+                out.append({"kind": "matern", "pattern": list(bits), "ctx": ctx})
     for bits in itertools.product([0, 1], repeat=6):
         if sum(bits) == 6:
             continue
@@ -66,7 +73,7 @@ def settings_ctx(name):
 
 
 def build(kind, seed, X, y):
-    fam = {"single": "exact", "batch": "exact", "multitask": "multitask"}[kind]
+    fam = {"single": "exact", "batch": "exact", "multitask": "multitask", "fixed": "fixednoise_learn", "matern": "matern_ard"}[kind]
     mb = (2,) if kind == "batch" else ()
     m = models.ExactModel(X, y, fam, seed, batch_shape=mb)
     models.perturb_(m, seed, "c16" + kind)
@@ -110,7 +117,7 @@ def run_cell(cell, seed):
     if kind == "elp":
         return run_elp(cell, seed, feats)
     g = util.gen(seed, "c16|" + kind)
-    if kind == "single":
+    if kind in ("single", "fixed", "matern"):
         n, d, m = 4, 2, 3
         X, y0, Xs = util.rand(g, n, d), util.randn(g, n), util.rand(g, m, d)
         nanmask = torch.tensor(cell["pattern"], dtype=torch.bool)
@@ -175,10 +182,13 @@ def run_cell(cell, seed):
                     wm, wc, K, Sn, mu = deletion_reference(clean, X, y0, Xs, obs, kind)
                     gm, gc = mean, cov
                     allm, allc, _, _, _ = deletion_reference(clean, X, y0, Xs, torch.ones_like(obs), kind)
-                ok, msg = util.close(gm, wm, 1e-7, 1e-7)
+                # CG: linear_cg's hard-coded residual floor (1e-10 relative to |rhs|) times the -999 fill value of the missing
+                # entries limits 'fill' under CG to ~1e-3 absolute whatever tolerance is requested (measured 8.2e-4)
+                tol = (5e-3 if pol == "fill" else 1e-5) if cell["ctx"] == "cg" else 1e-7
+                ok, msg = util.close(gm, wm, tol, tol)
                 if not ok:
                     fails.append({"sub": "mean", "symptom": f"posterior mean != mean after deleting the NaN observations: err={msg}", "detail": f"b={b}", "features": f2})
-                ok, msg = util.close(gc, wc, 1e-7, 1e-7)
+                ok, msg = util.close(gc, wc, tol, tol)
                 if not ok:
                     charact = "covariance equals the one conditioning on ALL inputs (NaN rows kept)" if util.close(gc, allc, 1e-7, 1e-7)[0] else "uncharacterised"
                     fails.append({"sub": "covariance", "symptom": f"posterior covariance != covariance after deleting the NaN observations: err={msg}; {charact}",
@@ -217,7 +227,7 @@ def run_cell(cell, seed):
             if not ok:
                 fails.append({"sub": "fantasy-nan", "symptom": f"fantasy posterior covariance != deletion oracle on concatenated data: err={msg}", "detail": "", "features": f2})
     # MLL under mask: n_total * mll == n_observed * mll_deleted  (fill is documented as unsupported for the MLL)
-    if kind in ("single", "multitask") and cell["ctx"] == "default" and int((~nanmask).sum()) > 0:
+    if kind in ("single", "multitask", "fixed", "matern") and cell["ctx"] == "default" and int((~nanmask).sum()) > 0:
         f2 = dict(feats, policy="mask", order="mll")
         with fails.guard("mll"):
             model = build(kind, seed, X, y)
